@@ -213,6 +213,12 @@ def run(pid, tier, seed, replay):
     rng = random.Random(seed)
     tmp = C.scratch_dir(pid.lower() + '_')
     try:
+        if replay and 'builder_spec' in json.load(open(replay)):
+            from . import tb
+            sp = json.load(open(replay))['builder_spec']
+            sp['inputs'] = [tuple(w) for w in sp['inputs']]
+            tb.judge(pid, [c for c in [tb.observe_case(sp)] if not c['skip']], ev, rep, tmp, 'replay')
+            return rep.finish()
         if replay:
             case = json.load(open(replay))
             sp = case['spec']
@@ -260,6 +266,9 @@ def run(pid, tier, seed, replay):
 
 def extra(pid, tier, rng, ev, rep, tmp):
     if pid == 'C03':
+        # L1: every reduction of the real LALR parser against the callback chain of TreeBuilder.tla
+        from . import tb
+        tb.phase(pid, tier, rng, ev, rep, tmp)
         if ev.cov['counts'].get('accepted', 0) < 5000 or ev.cov['counts'].get('inputs_with_placeholders', 0) < 200:
             raise C.MachineryFailure('vacuity: %s' % ev.cov['counts'])
     if pid == 'C04':
